@@ -96,7 +96,29 @@ Proof.
   - split; [reflexivity|apply FIN].
 Qed.
 
+(* a line a poll hands back (anything but isready / stop / an empty line arriving during a search) is the very next line the main loop
+   executes, before anything else of the input: it is not lost *)
+Theorem C13_handed_back_line_is_executed_next : forall extra f u l input,
+  uci_run extra (S f) u (Some l) input =
+  (let '(u', outs, rq, input', st) := uci_step extra u l input in
+   match st with
+   | Continue => let '(outs', st') := uci_run extra f u' rq input' in ((outs ++ outs')%list, st')
+   | _ => (outs, st)
+   end).
+Proof. reflexivity. Qed.
+(* ... and a `stop` taken by a poll is consumed by it: the line that follows it is the first of what is left for the main loop *)
+Theorem C13_line_after_stop_is_not_lost : forall fuel input at_ np n k rest,
+  poll_schedule input at_ np fuel = (n, Some (k, false), rest) ->
+  exists pre d l, input = (pre ++ (d, l) :: rest)%list /\ poll_dispatch (trim l) = PStop.
+Proof.
+  intros fuel input at_ np n k rest H. destruct (poll_schedule_suffix _ _ _ _ _ _ _ H) as (taken & E & _ & Q).
+  destruct (Q k false eq_refl) as (pre & [d l] & T & _ & D). exists pre, d, l. split; [|exact D].
+  rewrite E, T, <- app_assoc. reflexivity.
+Qed.
+
 Print Assumptions C13_uciok.
+Print Assumptions C13_handed_back_line_is_executed_next.
+Print Assumptions C13_line_after_stop_is_not_lost.
 Print Assumptions C13_go_answered_with_exactly_one_bestmove.
 Print Assumptions C13_polls_take_a_prefix.
 Print Assumptions C13_one_readyok_per_isready_during_search.
